@@ -27,8 +27,8 @@ pub fn prop() -> Prop {
         id: "C17",
         level: "exploration",
         runs: |t| match t {
-            Tier::Quick => 5000,
-            Tier::Thorough => 50000,
+            Tier::Quick => 3500,
+            Tier::Thorough => 40000,
         },
         generate,
         exec,
@@ -59,7 +59,11 @@ fn gen_c<C: Suite>(seed: u64, run: u64, tier: Tier) -> Scenario {
         (Tier::Quick, false) => 6,
         (Tier::Thorough, false) => 9,
     };
-    let (n, t) = gen_nt(&mut p, 2, max_n);
+    let (mut n, mut t) = gen_nt(&mut p, 2, max_n);
+    if let Some((wn, wt)) = maybe_wide::<C>(&mut p, 14) {
+        n = wn;
+        t = wt;
+    }
     s.n = n;
     s.t = t;
     s.id_scheme = (*p.pick(&ID_SCHEMES)).to_string();
@@ -174,6 +178,34 @@ fn exec_c<C: Suite>(scen: &Scenario) -> Exec {
                 rep.evaluations += 1;
                 if r3.map(|x| x.serialize()).ok() == Some(params.randomizer().serialize()) {
                     return Exec::Violation(viol("C17.randomizer_ignores_commitments", format!("session {inst}: changing one commitment leaves the randomiser unchanged")), rep);
+                }
+            }
+            // only the binding, and only the hiding, commitment of one participant changes
+            {
+                let fresh = {
+                    let kp = &kps[&node_of(&sim, &victim).unwrap()];
+                    let mut rng = SimRng::good(stream(scen.seed, scen.run, &format!("c17/freshcomp/{inst}")));
+                    frost::round1::commit::<C, _>(kp.signing_share(), &mut rng).1
+                };
+                for (which, newc) in [("binding", SigningCommitments::<C>::new(*c.hiding(), *fresh.binding())), ("hiding", SigningCommitments::<C>::new(*fresh.hiding(), *c.binding()))] {
+                    let mut cm = package.signing_commitments().clone();
+                    cm.insert(victim, newc);
+                    let r5 = Randomizer::<C>::regenerate_from_seed_and_commitments(seed, &cm);
+                    rep.evaluations += 1;
+                    if r5.map(|x| x.serialize()).ok() == Some(params.randomizer().serialize()) {
+                        return Exec::Violation(viol("C17.randomizer_ignores_commitments", format!("session {inst}: changing only the {which} commitment of one participant leaves the randomiser unchanged")), rep);
+                    }
+                }
+                // the same commitments filed under another identifier
+                if let Some(other_id) = sim.ids.iter().find(|i| !ids.contains(i)) {
+                    let mut cm = package.signing_commitments().clone();
+                    let moved = cm.remove(&victim).unwrap();
+                    cm.insert(*other_id, moved);
+                    let r6 = Randomizer::<C>::regenerate_from_seed_and_commitments(seed, &cm);
+                    rep.evaluations += 1;
+                    if r6.map(|x| x.serialize()).ok() == Some(params.randomizer().serialize()) {
+                        return Exec::Violation(viol("C17.randomizer_ignores_commitments", format!("session {inst}: filing a participant's commitments under another identifier leaves the randomiser unchanged")), rep);
+                    }
                 }
             }
             // drop one participant from the set
